@@ -49,6 +49,7 @@ func C07(c *core.Ctx) {
 	for _, mb := range arrayMembers(c.Tier, gen.DefaultConfig()) {
 		runMember(c, mb, rules, 16, checkRoot)
 	}
+	runCompositions(c, rules, "Items")
 	c.Floor("families", c.Counts["members"], 80, "family members")
 }
 
